@@ -9,7 +9,7 @@
 From Coq Require Import ZArith List Bool.
 From Flocq Require Import BinarySingleNaN.
 From CanVerif Require Import Can.Data Descriptor.Types Descriptor.Physical Gen.Message Gen.MessageProofs Gen.History
-  Gen.Layout Gen.LayoutProofs Gen.RoundTrip Gen.HistoryProofs Gen.HistoryPhys.
+  Gen.Layout Gen.LayoutProofs Gen.RoundTrip Gen.HistoryProofs Gen.HistoryPhys Gen.ClassCheck.
 Import ListNotations.
 Open Scope Z_scope.
 
@@ -63,6 +63,13 @@ Theorem C10_copy : forall m st other,
 Proof. exact copy_from_spec. Qed.
 Print Assumptions C10_copy.
 
+(** reset (and construction) restore exactly the declared start values *)
+Theorem C10_reset_restores_start_values : forall m this other,
+  snd (step m this other OpReset) = map reset_value (msg_signals m) /\
+  snd (step m this other OpNew) = map reset_value (msg_signals m).
+Proof. exact reset_restores. Qed.
+Print Assumptions C10_reset_restores_start_values.
+
 (** all clauses together for every reachable state *)
 Theorem C10_reachable : forall m ops,
   wf_message m -> wf_mux m -> wf_defaults m -> wf_header m -> Forall (fun wo => op_ok m (snd wo)) ops ->
@@ -96,6 +103,13 @@ Theorem C10_reachable_with_physical_setters : forall m ops,
   (exists a', unmarshal m (frame_of m a) (new_state m) = inr a' /\ frame_of m a' = frame_of m a).
 Proof. exact reachable_ok_x. Qed.
 Print Assumptions C10_reachable_with_physical_setters.
+
+(** the hypotheses are decidable: the correspondence run evaluates [in_theorem_class] on every message of
+    every sampled program (evidence key messages_satisfying_the_hypotheses_of_the_theorems) *)
+Theorem C10_hypotheses_decidable : forall m,
+  in_theorem_class m = true -> wf_message m /\ wf_mux m /\ wf_defaults m /\ wf_header m.
+Proof. exact in_theorem_class_sound. Qed.
+Print Assumptions C10_hypotheses_decidable.
 
 (** non-vacuity: a history on the example message of C03 *)
 From CanVerif Require Import Properties.C03.
